@@ -66,6 +66,9 @@ Definition map_err {A} (g : ferr -> ferr) (p : parser A) : parser A := fun b =>
 Notation "x <- p ;; q" := (bind p (fun x => q)) (at level 61, p at next level, right associativity).
 Notation "p ;;; q" := (bind p (fun _ => q)) (at level 61, right associativity).
 
+(* a count that was read from a 2-byte field (identity on real bytes; the model's byte strings
+   are lists of arbitrary N) *)
+Definition u16 (n : N) : N := N.min n 65535.
 (* ghost: a `with_capacity(n)` site requesting [n * elem] bytes *)
 Definition tick_alloc (bytes_requested : N) : parser unit := fun b => (Ok (tt, b), mkCost bytes_requested 0).
 (* ghost: `with_capacity(count.min(buf.len() / per))` (the repaired F4 sites) *)
@@ -169,7 +172,7 @@ Definition SZ_STRING : N := 24.
 
 (* read_string_list: Vec::with_capacity(len) then len strings *)
 Definition read_string_list : parser (list bytes) :=
-  len <- read_short ;; tick_alloc (len * SZ_STRING) ;;; repeatS read_string len.
+  len <- read_short ;; tick_alloc (u16 len * SZ_STRING) ;;; repeatS read_string len.
 
 (* HashMap semantics of `v.insert(key, val)` in wire order: later value replaces, the entry keeps
    its place.  Entries are kept in first-insertion order (the canonical comparison sorts). *)
@@ -193,12 +196,12 @@ Definition hm_alloc (n entry : N) : N :=
   if n =? 0 then 0 else hm_buckets n * (entry + 1) + 16.
 
 Definition read_bytes_map : parser (list (bytes * bytes)) :=
-  len <- read_short ;; tick_alloc (hm_alloc len SZ_PAYLOAD_ENTRY) ;;;
+  len <- read_short ;; tick_alloc (hm_alloc (u16 len) SZ_PAYLOAD_ENTRY) ;;;
   l <- repeatS (k <- read_string ;; v <- read_bytes ;; ret (k, v)) len ;;
   ret (hm_of_list l).
 
 Definition read_string_multimap : parser (list (bytes * list bytes)) :=
-  len <- read_short ;; tick_alloc (hm_alloc len SZ_MULTIMAP_ENTRY) ;;;
+  len <- read_short ;; tick_alloc (hm_alloc (u16 len) SZ_MULTIMAP_ENTRY) ;;;
   l <- repeatS (k <- read_string ;; v <- read_string_list ;; ret (k, v)) len ;;
   ret (hm_of_list l).
 
